@@ -311,7 +311,7 @@ def obligations_from(result, gi):
                 ob = "%s: call %s requires %s" % (f["name"], callee, clabel)
             else:
                 ob = "%s: %s @%s" % (f["name"], msg, gi.lines[line - 1].strip()[:60])
-            entry.update({"function": f["name"], "obligation": ob, "props": lprops or f["props"]})
+            entry.update({"function": f["name"], "obligation": ob, "props": lprops or f["props"], "specific": bool(lprops)})
         (res if c == "resource" else fails).append(entry)
     return fails, tools, res
 
@@ -473,3 +473,60 @@ def mustpanic_check(g, tag="std"):
     fails, tools, res = obligations_from(r, vgi)
     return {"derived": derived, "problems": problems, "fails": [x for x in fails if x["function"] in derived],
             "tools": tools, "res": [x for x in res if x["function"] in derived], "result": r, "path": vp}
+
+
+# ---------------------------------------------------------------- witness step: bounded concrete exploration
+
+def repo_src_hash():
+    h = hashlib.sha256()
+    d = os.path.join(REPO, "indextree", "src")
+    for f in sorted(os.listdir(d)):
+        if f.endswith(".rs"):
+            h.update(f.encode())
+            h.update(open(os.path.join(d, f), "rb").read())
+    return h.hexdigest()
+
+
+def explore(seed=1, budget_ms=12000, replay_ops=None):
+    """build tools/replay against the working tree of /repo and run it; returns its JSON (cached)"""
+    main_rs = open(os.path.join(VERIF, "tools", "replay", "src", "main.rs")).read()
+    key = sha(repo_src_hash() + main_rs + str(seed) + str(budget_ms) + (replay_ops or ""))
+    cdir = os.path.join(BUILD, "cache")
+    os.makedirs(cdir, exist_ok=True)
+    cpath = os.path.join(cdir, "explore-" + key + ".json")
+    if os.path.exists(cpath):
+        return json.load(open(cpath))
+    scratch = tempfile.mkdtemp(prefix="vx.", dir="/var/tmp")
+    try:
+        tmpl = open(os.path.join(VERIF, "tools", "replay", "Cargo.toml.tmpl")).read().replace("@REPO@", REPO)
+        open(os.path.join(scratch, "Cargo.toml"), "w").write(tmpl + "\n[profile.nodebug]\ninherits = \"release\"\ndebug-assertions = false\noverflow-checks = false\n")
+        os.makedirs(os.path.join(scratch, "src"))
+        open(os.path.join(scratch, "src", "main.rs"), "w").write(main_rs)
+        lock = os.path.join(REPO, "Cargo.lock")
+        out = {"runs": [], "violations": [], "hang": False}
+        t0 = time.time()
+        for prof, share in (("release", 1.0), ("nodebug", 0.5)):
+            p = sh(["cargo", "build", "--offline", "--profile", prof], cwd=scratch, check=False, timeout=900)
+            if p.returncode != 0:
+                raise Undecided("the witness explorer does not build against /repo: " + p.stderr[-1500:])
+            binp = os.path.join(scratch, "target", prof, "vx-replay")
+            if replay_ops:
+                cmd = [binp, "replay", replay_ops]
+            else:
+                cmd = [binp, "explore", str(seed), str(int(budget_ms * share))]
+            try:
+                q = subprocess.run(cmd, stdout=subprocess.PIPE, stderr=subprocess.PIPE, text=True, timeout=budget_ms / 1000.0 * share + 120)
+                line = [l for l in q.stdout.splitlines() if l.startswith("{")]
+                j = json.loads(line[-1]) if line else {"violations": [], "sequences": 0, "operations": 0, "error": q.stderr[-500:]}
+            except subprocess.TimeoutExpired:
+                j = {"violations": [{"props": ["C02"], "ops": "?", "msg": "the explorer itself did not finish (possible non-termination)"}], "hang": True}
+            j["build"] = "debug assertions on" if prof == "release" else "debug assertions off (release semantics)"
+            out["runs"].append({k: j.get(k) for k in ("build", "sequences", "operations", "hang")})
+            for vv in j.get("violations", []):
+                vv["build"] = j["build"]
+                out["violations"].append(vv)
+        out["wall_s"] = round(time.time() - t0, 1)
+        json.dump(out, open(cpath, "w"))
+        return out
+    finally:
+        shutil.rmtree(scratch, ignore_errors=True)
